@@ -5,18 +5,23 @@ Theorems about the executable models `Model/VssSym.lean`, `Model/Dkg.lean`,
 `Model/DkgSession.lean` (symbolic cryptography, DESIGN §4), for every field `F`, `F`-module `G`
 with base point `g`, every group size, every member and EVERY sequence of messages a member
 receives: the adversary is any function producing the messages – nothing is assumed about
-them except, in `safety`, the two idealised-cryptography facts that the symbolic term model
-cannot express by itself and that are therefore explicit hypotheses:
+them except, in `safety`, the idealised-cryptography / authenticated-transport facts that the
+symbolic term model cannot express by itself and that are therefore explicit hypotheses:
 
-* `AuthResp` – a response that verifies under an honest member's key was signed by that
-  member (it carries the session id of one of the responses that member holds);
-* the deal an honest member holds from the OTHER honest member carries the commitments that
-  member dealt (a sealed deal opens only if the dealer's key signed its ephemeral key and the
-  AEAD key is the dealer–recipient Diffie–Hellman value: C08 `open_only_addressee`).
+* `AuthResp` (both directions) – a response that verifies under an honest member's key was signed
+  by that member (it carries the session id of one of the responses that member holds);
+* each of the two honest members lists the other's true key at the other's index: a key is accepted
+  for index `k` only from the transport-authenticated group member `k` (`accepted_keys_are_bound`),
+  and an honest member announces only its own key under its own index.
+
+Everything else – that both hold the same participant list, that it has no key twice, that each
+holds the commitments the other one dealt – is DERIVED (`safety`), or its failure provably aborts
+the member (`forged_key_aborts`, `duplicate_key_aborts`).
 
 The model is the tree with `fix:` 386c5d2 (the session id a verifier compares responses with is
-bound to the commitments it saw).  Without it `safety` is false: corpus/C05 holds the n = 3
-run in which two honest members finish on different keys.
+bound to the commitments it saw), e9f475e (a PublicKey message is bound to its sender) and babf9f5
+(no key under two indices).  Without any one of them `safety` is false: corpus/C05 holds the runs
+in which two honest members finish on different keys.
 Helper lemmas: `Proofs/DkgStep.lean`, `DkgResp.lean`, `DkgScript.lean`, `DkgFinish.lean`,
 `DkgSafety.lean`, `DkgMember.lean`.
 -/
@@ -82,7 +87,7 @@ theorem finished_approved_all (g : G) (m : Member F G) (d : Gen F G) (ks : KeySh
       getResponse a d.index = some r ∧ r.status = true ∧ a.deal = some dl ∧
       Consistent g v.dealer d.participants dl := by
   simp only [MemberInv, hst] at hm
-  obtain ⟨hg, ha, _, hks⟩ := hm
+  obtain ⟨hg, ha, _, _, hks⟩ := hm
   obtain ⟨_, hslots, _⟩ := distKeyShare_spec d ks hg.len hks
   intro j hj
   obtain ⟨v, a, dl, _, _, hv, hagg, hdl, _, _⟩ := hslots j hj
@@ -102,30 +107,100 @@ theorem reachable_invariant (g : G) :
   ⟨member_inv_init g, member_inv_start g, fun m x => member_inv_recvPk g m x,
     fun m x => member_inv_recvDeal g m x, fun m x => member_inv_recvResp g m x⟩
 
-/-- **3. `safety`.**  Take ANY two members `m`, `m'` of one group (same participant list with
-pairwise distinct keys, different indices) in ANY reachable states in which both have finished,
-with key shares `ks`, `ks'`.  If responses are unforgeable (`AuthResp`: what `m` stored as a
-response of `m'` was signed by `m'`) and `m` holds `m'`'s genuine deal (same commitments as in
-`m'`'s own slot), then both output the SAME public polynomial – one group key – and each one's
-private share lies on it at its own index. -/
+/-- **3a. `accepted_keys_are_bound`.**  If `exchangePub`/`genDistKeyGenerator` accept a batch of
+PublicKey messages – ANY batch – then no key sits at two indices of the participant list, and every
+message was sent by the group member whose index it claims and its key is the participant at that
+index. -/
+theorem accepted_keys_are_bound (g : G) (n : Nat) (long : F) (f : List F) (own : PkMsg G) (batch : List (PkMsg G))
+    (d : Gen F G) (h : buildGen g n long f own batch = some d) :
+    d.participants.Nodup ∧
+    ∀ x ∈ own :: batch, x.sender = x.index ∧ ∃ k, x.key = some k ∧ d.participants[x.index]? = some k :=
+  (buildGen_good h).2.2.2.2
+
+/-- **3b. `forged_key_aborts`.**  A member whose key batch contains a message not sent by the member
+whose index it claims fails (stage `failed "gen"`): it does not finish. -/
+theorem forged_key_aborts (g : G) (fuel : Nat) (m : Member F G) (batch : List (PkMsg G))
+    (hs : m.stage = .waitPk) (hb : m.pkBox = some batch) (x : PkMsg G) (hx : x ∈ batch) (hf : x.sender ≠ x.index) :
+    (Member.advance g (fuel + 1) m).stage = .failed "gen" := by
+  have hnone : buildGen g m.n m.long m.f ⟨m.index, some (m.long • g), m.index⟩ batch = none := by
+    rcases hbg : buildGen g m.n m.long m.f ⟨m.index, some (m.long • g), m.index⟩ batch with _ | d
+    · rfl
+    · exact absurd ((accepted_keys_are_bound g _ _ _ _ _ d hbg).2 x (by simp [hx])).1 hf
+  rw [Member.advance]
+  simp only [hs, hb, hnone]
+
+/-- **3c. `duplicate_key_aborts`.**  A member whose key batch (with its own key) carries one key under
+two indices fails: it does not finish. -/
+theorem duplicate_key_aborts (g : G) (fuel : Nat) (m : Member F G) (batch : List (PkMsg G))
+    (hs : m.stage = .waitPk) (hb : m.pkBox = some batch) (x y : PkMsg G)
+    (hx : x ∈ (⟨m.index, some (m.long • g), m.index⟩ : PkMsg G) :: batch)
+    (hy : y ∈ (⟨m.index, some (m.long • g), m.index⟩ : PkMsg G) :: batch)
+    (hxy : x.index ≠ y.index) (hk : x.key = y.key) :
+    (Member.advance g (fuel + 1) m).stage = .failed "gen" := by
+  have hnone : buildGen g m.n m.long m.f ⟨m.index, some (m.long • g), m.index⟩ batch = none := by
+    rcases hbg : buildGen g m.n m.long m.f ⟨m.index, some (m.long • g), m.index⟩ batch with _ | d
+    · rfl
+    · exfalso
+      obtain ⟨hnd, hall⟩ := accepted_keys_are_bound g _ _ _ _ _ d hbg
+      obtain ⟨_, k, hk1, hp1⟩ := hall x hx
+      obtain ⟨_, k', hk2, hp2⟩ := hall y hy
+      rw [hk, hk2] at hk1; injection hk1 with hk1; subst hk1
+      have hxl : x.index < d.participants.length := by
+        rcases Nat.lt_or_ge x.index d.participants.length with h | h
+        · exact h
+        · rw [List.getElem?_eq_none h] at hp1; cases hp1
+      have hyl : y.index < d.participants.length := by
+        rcases Nat.lt_or_ge y.index d.participants.length with h | h
+        · exact h
+        · rw [List.getElem?_eq_none h] at hp2; cases hp2
+      rw [List.getElem?_eq_getElem hxl] at hp1
+      rw [List.getElem?_eq_getElem hyl] at hp2
+      injection hp1 with e1; injection hp2 with e2
+      exact hxy (hnd.getElem_inj_iff.1 (by rw [e1, e2]))
+  rw [Member.advance]
+  simp only [hs, hb, hnone]
+
+/-- **3. `safety`.**  Take ANY two member machines `m`, `m'` in ANY reachable states (`MemberInv`:
+whatever messages arrived, in whatever order) in which both have finished, with key shares `ks`, `ks'`,
+at different indices.  Hypotheses the adversary cannot influence: each lists the other's own key
+`long • g` at the other's index (authenticated transport + 3a: an honest member announces only its
+own key under its own index, and a key is accepted for an index only from that member) and responses
+are unforgeable in both directions (`AuthResp`).  Then both hold the SAME participant list, each holds
+the commitments the other one dealt, both output the SAME public polynomial – one group key – and
+each one's private share lies on it at its own index. -/
 theorem safety (g : G) (m m' : Member F G) (d d' : Gen F G) (ks ks' : KeyShare F G)
     (hm : MemberInv g m) (hm' : MemberInv g m') (hst : m.stage = .done d ks) (hst' : m'.stage = .done d' ks')
-    (hp : d'.participants = d.participants) (hnd : d.participants.Nodup) (hne : d'.index ≠ d.index)
-    (pub' : G) (hpub' : d.participants[d'.index]? = some pub')
-    (hauth : AuthResp g pub' d d')
-    (hdeal : commitsAt d' d'.index = commitsAt d d'.index) :
+    (hne : d'.index ≠ d.index)
+    (hpub' : d.participants[d'.index]? = some (d'.long • g)) (hpub : d'.participants[d.index]? = some (d.long • g))
+    (hauth : AuthResp g (d'.long • g) d d') (hauth' : AuthResp g (d.long • g) d' d) :
+    d'.participants = d.participants ∧ commitsAt d' d'.index = commitsAt d d'.index ∧
     ks'.commits = ks.commits ∧
     ks.shareV • g = pubEval (S := F) ks.commits (d.index : Int) ∧
     ks'.shareV • g = pubEval (S := F) ks'.commits (d'.index : Int) ∧
     ks.shareI = d.index ∧ ks'.shareI = d'.index := by
   simp only [MemberInv, hst] at hm
   simp only [MemberInv, hst'] at hm'
-  obtain ⟨hg, ha, _, hks⟩ := hm
-  obtain ⟨hg', ha', _, hks'⟩ := hm'
-  refine ⟨finishers_agree g d d' ks ks' hg hg' ha ha' hp hnd hne pub' hpub' hauth hdeal hks hks',
-    finished_share_on_poly g d ks hg ha hks, finished_share_on_poly g d' ks' hg' ha' hks', ?_, ?_⟩
+  obtain ⟨hg, ha, _, hnd, hks⟩ := hm
+  obtain ⟨hg', ha', _, hnd', hks'⟩ := hm'
+  obtain ⟨h1, h2, h3⟩ := finishers_agree_auth g d d' ks ks' hg hg' ha ha' hnd hnd' hne _ _ hpub' hpub hauth hauth' hks hks'
+  refine ⟨h1, h2, h3, finished_share_on_poly g d ks hg ha hks, finished_share_on_poly g d' ks' hg' ha' hks', ?_, ?_⟩
   · exact (distKeyShare_spec d ks hg.len hks).2.2.2.2.2.1
   · exact (distKeyShare_spec d' ks' hg'.len hks').2.2.2.2.2.1
+
+/-- **3′. the former statement of `safety`** (kept as a lemma): with the agreement of the two views and
+of the commitments of `m'`'s own dealing as hypotheses. -/
+theorem safety_of_agreeing_views (g : G) (m m' : Member F G) (d d' : Gen F G) (ks ks' : KeyShare F G)
+    (hm : MemberInv g m) (hm' : MemberInv g m') (hst : m.stage = .done d ks) (hst' : m'.stage = .done d' ks')
+    (hp : d'.participants = d.participants) (hne : d'.index ≠ d.index)
+    (pub' : G) (hpub' : d.participants[d'.index]? = some pub')
+    (hauth : AuthResp g pub' d d')
+    (hdeal : commitsAt d' d'.index = commitsAt d d'.index) :
+    ks'.commits = ks.commits := by
+  simp only [MemberInv, hst] at hm
+  simp only [MemberInv, hst'] at hm'
+  obtain ⟨hg, ha, _, hnd, hks⟩ := hm
+  obtain ⟨hg', ha', _, _, hks'⟩ := hm'
+  exact finishers_agree g d d' ks ks' hg hg' ha ha' hp hnd hne pub' hpub' hauth hdeal hks hks'
 
 /-! ### non-vacuity (ℚ, `g = 1`): three members with keys 5, 7, 9 -/
 
@@ -148,12 +223,17 @@ example : (do let v ← exV; let e ← exBad; pure ((processEncryptedDeal 1 v e)
 def exMember (k : Nat) (long : ℚ) (f : List ℚ) : Member ℚ ℚ := Member.init 3 k long f [11 + k, 21 + k, 31 + k]
 def exRun : List (Member ℚ ℚ) :=
   let ms := [exMember 0 5 [4, 2], exMember 1 7 [6, 1], exMember 2 9 [3, 8]].map (Member.start (1 : ℚ))
-  let pk (k : Nat) (long : ℚ) : PkMsg ℚ := ⟨k, some long⟩
+  let pk (k : Nat) (long : ℚ) : PkMsg ℚ := ⟨k, some long, k⟩
   ms.map (fun m => ([pk 0 5, pk 1 7, pk 2 9].filter (fun x => x.index ≠ m.index)).foldl (fun m x => m.recvPk 1 x) m)
 
 -- 2a/2c/3: the machines reach the dealing stage (the invariant's non-trivial branch is inhabited)
 example : exRun.map (fun m => match m.stage with | .waitDeals _ => true | _ => false) = [true, true, true] := by
   decide +kernel
+-- 3b/3c: member 0 is sent, by member 2, a key under member 1's index / member 2 announces member 1's key: member 0 fails
+example : ([(⟨1, some 99, 2⟩ : PkMsg ℚ), ⟨2, some 9, 2⟩].foldl (fun m x => m.recvPk 1 x)
+    (Member.start (1 : ℚ) (exMember 0 5 [4, 2]))).stage matches .failed "gen" := by decide +kernel
+example : ([(⟨1, some 7, 1⟩ : PkMsg ℚ), ⟨2, some 7, 2⟩].foldl (fun m x => m.recvPk 1 x)
+    (Member.start (1 : ℚ) (exMember 0 5 [4, 2]))).stage matches .failed "gen" := by decide +kernel
 -- 3: a complete run of the three machines: all finish, in states to which `safety` applies, with one key
 def exCfg : Cfg ℚ ℚ := { g := 1, longs := [5, 7, 9], polys := [[4, 2], [6, 1], [3, 8]] }
 def exSched : List Ev :=
@@ -162,6 +242,11 @@ def exSched : List Ev :=
     pairs.map (fun p => Ev.resps p.1 p.2)
 example : (runEvents exCfg [[11, 12, 13], [21, 22, 23], [31, 32, 33]] exSched).ms.map
     (fun m => match m.stage with | .done _ ks => some ks.commits | _ => none) = [some [13, 11], some [13, 11], some [13, 11]] := by
+  decide +kernel
+-- 3: … and each finisher lists every member's own key `long • g` at that member's index (hypotheses `hpub`, `hpub'`)
+example : (runEvents exCfg [[11, 12, 13], [21, 22, 23], [31, 32, 33]] exSched).ms.map
+    (fun m => match m.stage with | .done d _ => some (d.participants, d.index, d.long • (1 : ℚ)) | _ => none) =
+    [some ([5, 7, 9], 0, 5), some ([5, 7, 9], 1, 7), some ([5, 7, 9], 2, 9)] := by
   decide +kernel
 end Examples
 
